@@ -43,21 +43,31 @@ def run(cmd, cwd=None, env=None, timeout=None):
 # ------------------------------------------------------------------------------ build
 def build_harness(native=False):
     """(re)build the harness against /repo's CURRENT working tree, both profiles; with native=True also a
-    release build for the CPU of this machine (-C target-cpu=native: cfg(target_feature) code paths)."""
+    release build for the CPU of this machine (-C target-cpu=native: cfg(target_feature) code paths).
+    The native build has its own target directory and runs alongside the other two."""
     os.makedirs(OUT, exist_ok=True)
     with open(os.path.join(HARNESS, ".buildlock"), "w") as lk:
         fcntl.flock(lk, fcntl.LOCK_EX)
-        for prof in ("dev", "release"):
-            cmd = ["cargo", "build", "--offline", "--quiet", "--target-dir", os.path.join(HARNESS, "target")] + \
-                  (["--release"] if prof == "release" else [])
-            rc, out = run(cmd, cwd=HARNESS, timeout=1800)
-            if rc != 0:
-                raise ToolError("harness does not build against /repo (%s profile):\n%s" % (prof, out[-3000:]))
-        if native:
+
+        def plain():
+            for prof in ("dev", "release"):
+                cmd = ["cargo", "build", "--offline", "--quiet", "--target-dir", os.path.join(HARNESS, "target")] + \
+                      (["--release"] if prof == "release" else [])
+                rc, out = run(cmd, cwd=HARNESS, timeout=1800)
+                if rc != 0:
+                    raise ToolError("harness does not build against /repo (%s profile):\n%s" % (prof, out[-3000:]))
+
+        def nat():
             cmd = ["cargo", "build", "--offline", "--quiet", "--release", "--target-dir", NATIVE_TARGET]
             rc, out = run(cmd, cwd=HARNESS, timeout=1800, env={"RUSTFLAGS": "-Awarnings -C target-cpu=native"})
             if rc != 0:
                 raise ToolError("harness does not build against /repo (native profile):\n%s" % out[-3000:])
+
+        import concurrent.futures as cf
+        with cf.ThreadPoolExecutor(max_workers=2) as ex:
+            futs = [ex.submit(plain)] + ([ex.submit(nat)] if native else [])
+            for f in futs:
+                f.result()
 
 
 def bsx(profile):
